@@ -7,7 +7,7 @@ from vlib.pool import Pool, NCPU
 from . import common
 
 PID = "C14"
-RULE = ("script = 1-3 generated statements rendered (a) with unqualified table names and analysed under default schema S and (b) with every unqualified table name written S.name "
+RULE = ("script = 1-3 (some 6-10) generated statements rendered (a) with unqualified table names and analysed under default schema S and (b) with every unqualified table name written S.name "
         "and analysed with no default; S in {fresh name, a name already used as a qualifier in the script}; mechanism in {SQLLINEAGE_DEFAULT_SCHEMA set before import, set after "
         "import, scoped SQLLineageConfig(DEFAULT_SCHEMA=S)}; both analyzers; tables, column pairs and both exports must be equal; with no default every owner prints <default>; "
         "non-trivial = both analyses returned and the script has at least one unqualified table; distinct by (script, S, mechanism, analyzer)")
@@ -20,9 +20,10 @@ def build(tier, rnd):
     g = sqlgen.Gen(random.Random(common.env.seed() * 32452843 + 3), qualify_p=0.25)
     kinds = ["insert", "insert", "ctas", "create_view", "bare", "insert_cols", "update_from", "merge", "with_insert", "create_like", "insert_values", "drop", "rename"]
     out = []
-    for i in range(n):
+    # the last n // 12 scripts are long ones (6-10 statements)
+    for i in range(n + n // 12):
         stmts = []
-        for _ in range(rnd.choice([1, 1, 2, 3])):
+        for _ in range(rnd.choice([1, 1, 2, 3]) if i < n else rnd.randint(6, 10)):
             k = rnd.choice(kinds)
             if k == "rename":
                 t = g.target()
@@ -30,7 +31,7 @@ def build(tier, rnd):
             elif k == "drop":
                 st = sqlgen.Stmt("drop", g.target())
             else:
-                st = g.statement(rnd.choice([0, 1, 1, 2]), kinds=[k])
+                st = g.statement(rnd.choice([0, 1, 1, 2]) if i < n else rnd.choice([0, 0, 1]), kinds=[k])
             stmts.append(st)
         out.append(stmts)
     return out
